@@ -142,7 +142,7 @@ pub fn run(cfg: &Cfg) -> i32 {
             engine::run_one(ctx, check_singletons)?;
         }
         let strat = (structured(), structured(), structured());
-        engine::pbt(ctx, seedf(1), cfg.per_shard(4_000_000, 80_000_000), &strat, |ctx, t: &(u64, u64, u64)| check_triple(ctx, t.0, t.1, t.2))?;
+        engine::pbt(ctx, seedf(1), cfg.per_shard(20_000_000, 300_000_000), &strat, |ctx, t: &(u64, u64, u64)| check_triple(ctx, t.0, t.1, t.2))?;
         Ok(())
     });
     engine::finish(
